@@ -1,7 +1,9 @@
 package sim
 
 import (
+	"crypto/sha256"
 	"encoding/hex"
+	"encoding/json"
 	"fmt"
 	"strings"
 )
@@ -15,7 +17,7 @@ func init() {
 	Register(&Profile{Prop: "C04", Fatal: []string{"C04."}, Run: runC04, Core: coreC04})
 }
 
-const c04NumMut = 16
+const c04NumMut = 19
 
 func coreC04(tier string) []RunSpec {
 	var out []RunSpec
@@ -38,6 +40,17 @@ func (m *MW) StepForge(forceMut, forceVia int) {
 		return
 	}
 	p := base[0]
+	if m.Locks && m.T.Chance("forge.lockedbase", 1, 3) {
+		// mutate a proof that carries a (valid) witness: the witness stays valid under every
+		// mutation that leaves the secret alone
+		for _, x := range m.User.Purse[mint] {
+			if x.Witness != "" {
+				p, base = x, []*HProof{x}
+				m.rc.S.Probe("c04_locked_base")
+				break
+			}
+		}
+	}
 	mk := m.T.Choose("forge.mut", c04NumMut)
 	if forceMut >= 0 {
 		mk = forceMut
@@ -130,6 +143,44 @@ func (m *MW) StepForge(forceMut, forceVia int) {
 	case 15: // Y itself as C (k=1)
 		pj["C"] = hY(p.Secret)
 		desc = "C = Y"
+	case 16, 17, 18:
+		// forged from scratch, but the secret is a spending condition the forger can satisfy: a
+		// P2PK lock to its own key with a valid signature (16), a P2PK lock whose locktime has
+		// passed and names no refund key (17), an HTLC with the right preimage (18). The lock being
+		// satisfied says nothing about C.
+		if m.W.LockRing == nil {
+			m.W.LockRing = NewKeyRing(2)
+		}
+		kr := m.W.LockRing
+		c := &LockCfg{NSigs: -1, LockKey: 0, Data: kr.PubHex(0)}
+		wit := map[string]any{}
+		switch mk {
+		case 17:
+			c.Locktime = 1
+			desc = "forged, P2PK expired locktime without refund"
+		case 18:
+			pre := randHex(32)
+			pb, _ := hex.DecodeString(pre)
+			hh := sha256.Sum256(pb)
+			c = &LockCfg{HTLC: true, NSigs: -1, Data: hex.EncodeToString(hh[:])}
+			wit["preimage"] = pre
+			wit["signatures"] = []string{}
+			desc = "forged, HTLC with right preimage"
+		default:
+			desc = "forged, P2PK with valid witness"
+		}
+		secret := c.Secret(kr)
+		if mk == 16 {
+			wit["signatures"] = []string{SignMsg(kr.Priv[0], []byte(secret), 0)}
+		}
+		pj["secret"] = secret
+		if len(wit) > 0 {
+			wj, _ := json.Marshal(wit)
+			pj["witness"] = string(wj)
+		} else {
+			delete(pj, "witness")
+		}
+		pj["C"] = pointHex(mulG(randScalar()))
 	}
 	var second *HProof
 	if m.T.Chance("forge.second", 1, 3) {
@@ -205,6 +256,7 @@ func runC04(rc *RunCtx) {
 	rc.W.CheckGenuine = true
 	m := NewMW(rc, "A")
 	m.Strict = true
+	m.Locks = true
 	m.Fees = map[string][]uint64{"A": fees}
 	rc.Quietly(func() { m.User.Fund("A", 255); m.User.Fund("A", 127) })
 	forceMut, forceVia := rc.P("mut", -1), rc.P("via", -1)
